@@ -146,7 +146,7 @@ func Generate(t *tape.Tape, feat Features, maxServices int) *World {
 	w.K = 1 + t.Choose(maxServices)
 	w.NEntities = 2 + t.Choose(3)
 	w.NullRate = []int{0, 10, 25, 50}[t.Choose(4)]
-	w.LenProf = [][]int{{0, 1, 2, 3}, {1, 2, 2, 3}, {0, 1, 1, 6}, {2, 3, 4, 5}}[t.Choose(4)]
+	w.LenProf = [][]int{{0, 1, 2, 3}, {1, 2, 2, 3}, {0, 1, 1, 4}, {2, 2, 3, 3}}[t.Choose(4)]
 	add := func(td *TypeDef) {
 		w.Types[td.Name] = td
 		w.Order = append(w.Order, td.Name)
@@ -460,7 +460,8 @@ func (g *gen) outTypeRef(root bool) TypeRef {
 	comp = append(comp, g.w.kind("value")...)
 	comp = append(comp, g.w.kind("interface")...)
 	comp = append(comp, g.w.kind("union")...)
-	num := 1
+	// composite-typed fields make deep, cross-service selections possible
+	num := 2
 	if root {
 		num = 3
 	}
